@@ -18,9 +18,10 @@ package tso
 
 //@ func (*Allocator).Reserve
 //@   property C27
-//@   requires a == nil || math(a.counter.v) + math(n) <= 18446744073709551615
-//@   ensures [fresh-interval] a != nil && n != 0 ==> err == nil && count == n && first == old(a.counter.v) + 1 && a.counter.v == old(a.counter.v) + n && first > old(a.counter.v) && first + (n - 1) == a.counter.v
+//@   ensures [fresh-interval] a != nil && n != 0 && math(old(a.counter.v)) + math(n) <= 18446744073709551615 ==> err == nil && count == n && first == old(a.counter.v) + 1 && a.counter.v == old(a.counter.v) + n && first > old(a.counter.v) && first + (n - 1) == a.counter.v
 //@   ensures [rejected-unchanged] a != nil && n == 0 ==> err != nil && a.counter.v == old(a.counter.v)
+//@   ensures [exhausted-space-is-refused-not-wrapped] a != nil && n != 0 && math(old(a.counter.v)) + math(n) > 18446744073709551615 ==> err != nil && a.counter.v == old(a.counter.v)
+//@   loop 1 invariant [retry-sees-the-same-counter] a != nil && n != 0 && a.counter.v == old(a.counter.v)
 //@   modifies a.counter.v
 
 //@ func (*Allocator).Current
